@@ -118,4 +118,19 @@ def check(inp):
         if not (np.array_equal(s.t.tcb.mjd, tt[1:]) and np.array_equal(s.rv.value, d.rv.value[1:])
                 and np.array_equal(s.rv_err.value, d.rv_err.value[1:, 1:] if inp["cov"] else d.rv_err.value[1:])):
             bad("__getitem__", "corresponding-observations")
+        # index arrays and boolean masks select the corresponding rows (and, for a covariance, rows AND columns)
+        sel_i = np.array([0, m - 1])
+        sel_m = np.zeros(m, dtype=bool)
+        sel_m[[0, m - 1]] = True
+        for nm, sel in (("index-array", sel_i), ("mask", sel_m)):
+            try:
+                g = d[sel]
+            except Exception as e:
+                bad("__getitem__", f"unexpected-exception[{nm}]", exc=repr(e))
+                continue
+            rows = [0, m - 1]
+            want_err = d.rv_err.value[np.ix_(rows, rows)] if inp["cov"] else d.rv_err.value[rows]
+            if not (len(g) == 2 and np.array_equal(g.t.tcb.mjd, tt[rows]) and np.array_equal(g.rv.value, d.rv.value[rows])
+                    and g.rv_err.value.shape == want_err.shape and np.array_equal(g.rv_err.value, want_err) and g.rv_err.unit == d.rv_err.unit):
+                bad("__getitem__", f"corresponding-observations[{nm}]", shape=g.rv_err.value.shape)
     return fails
